@@ -1397,13 +1397,21 @@ func (k *chk15) directed(name string) {
 				return
 			}
 			L := func(l *evLeaf) *ctree { return &ctree{leaf: l} }
+			// conditions on one URN property that are satisfied by DIFFERENT URNs of the contact (a property with several values
+			// matches when any value does, each condition on its own)
+			u1, u2, u3, u4 := mk(cond("urn", "tel", "=", "+12065551212")), mk(cond("urn", "tel", "~", "1313")), mk(cond("attr", "urn", "~", "ewok")), mk(cond("urn", "tel", "~", "5551"))
+			var urnKids [][]*ctree
+			if u1 != nil && u2 != nil && u3 != nil && u4 != nil {
+				urnKids = [][]*ctree{{L(u1), L(u2)}, {L(u2), L(u1)}, {L(u1), L(u2), L(u3)}, {L(u1), {op: "and", kids: []*ctree{L(u2), L(u4)}}}, {L(u3), L(u2)}, {L(u1), L(u2), L(fa)}, {L(u4), L(u2), L(u1)}}
+				k.res.Count("compose.urn_conditions_on_different_urns", int64(len(urnKids)))
+			}
 			for _, op := range []string{"and", "or"} {
-				for _, kids := range [][]*ctree{
+				for _, kids := range append(urnKids, [][]*ctree{
 					{L(tr), L(tr2)}, {L(tr), L(fa)}, {L(fa), L(tr)}, {L(fa), L(fa2)},
 					{L(tr), L(tr2), L(fa)}, {L(fa), L(fa2), L(tr)}, {L(tr), L(tr2), L(tr), L(tr2)}, {L(fa), L(fa2), L(fa), L(fa2)},
 					{L(tr), {op: "or", kids: []*ctree{L(fa), L(fa2)}}}, {L(fa), {op: "and", kids: []*ctree{L(tr), L(tr2)}}},
 					{{op: "and", kids: []*ctree{L(tr), {op: "or", kids: []*ctree{L(fa), L(tr2)}}}}, L(fa2)},
-				} {
+				}...) {
 					ct := &ctree{op: op, kids: kids}
 					want, ok := k.checkCompose(r, t, ct)
 					if ok {
